@@ -17,6 +17,8 @@ pub struct Expected {
     pub rows: Vec<String>,
     /// Some(msg): the chain must end with an error
     pub fails: Option<String>,
+    /// density evaluations the chain needs before its first draw (u64::MAX: it never gets there)
+    pub setup_evals: u64,
 }
 
 pub fn expected_for(scn: &Scenario, chain: usize) -> Expected {
@@ -24,6 +26,7 @@ pub fn expected_for(scn: &Scenario, chain: usize) -> Expected {
         RefOutcome::Complete(r) => (r, None),
         RefOutcome::Failed(r, m) => (r, Some(m)),
     };
+    let setup_evals = crate::model::LAST_SETUP_EVALS.with(|c| c.get());
     for (c, op) in &scn.plan.storage {
         if *c == chain {
             if let StorageOp::Record(n) = op {
@@ -34,7 +37,7 @@ pub fn expected_for(scn: &Scenario, chain: usize) -> Expected {
             }
         }
     }
-    Expected { rows, fails }
+    Expected { rows, fails, setup_evals }
 }
 
 fn records_before(events: &[Event], upto: usize, chain: usize) -> usize {
@@ -492,6 +495,19 @@ pub fn check(
                 let started_before = ev[..*open]
                     .iter()
                     .any(|e| matches!(e, Event::ChainStarted { chain } if *chain == c));
+                // a chain that was still setting itself up (model construction, initial point)
+                // when pause() returned has not started drawing either
+                let evals_at_open = ev[*open..]
+                    .iter()
+                    .find_map(|e| if let Event::EvalSnapshot(s) = e { Some(s.iter().find(|(k, _)| *k == c).map(|(_, v)| *v).unwrap_or(0)) } else { None })
+                    .unwrap_or(u64::MAX);
+                let in_setup = started_before && evals_at_open < exp[c].setup_evals;
+                if in_setup && n > bound - 1 {
+                    v.push((
+                        format!("C12/chain-in-setup-started-drawing-while-paused/{}", scn.name),
+                        format!("window {wi}: chain {c} had made {evals_at_open} of its {} set-up evaluations when pause() returned and recorded {n} draws while paused", exp[c].setup_evals),
+                    ));
+                }
                 // an unstarted chain consumes one queued command before its first draw
                 if !started_before && n > bound - 1 {
                     v.push((
